@@ -235,3 +235,135 @@ Example C13_nactive_regression :
   map ev_id (fst (fst (loop_ids false false 3 ids pend [1; 2]%Z))) = [(1001, 1000, 13, 1); (1002, 1003, 13, 2)]%Z /\
   snd (loop_ids false false 3 ids pend [1; 2]%Z) = 3%Z.
 Proof. split; vm_compute; reflexivity. Qed.
+
+(* ================= round 3 ================= *)
+(* ---- hard sphere with a general coefficient of restitution (minimum_collision_velocity = 0, approaching along the normal) *)
+Theorem C13_hardsphere_restitution : forall t eps mcv st ct sp cp g p1 p2 q1 q2,
+  hardsphere RNum t eps mcv st ct sp cp g p1 p2 = Some (q1, q2) ->
+  mcv = 0 -> hs_vn st ct sp cp g p1 p2 <= 0 -> 0 <= 1 + eps ->
+  ct * ct + st * st = 1 -> cp * cp + sp * sp = 1 -> pm p1 + pm p2 <> 0 ->
+  hs_vn st ct sp cp g q1 q2 = - eps * hs_vn st ct sp cp g p1 p2.
+Proof. exact hs_restitution. Qed.
+Print Assumptions C13_hardsphere_restitution.
+
+Theorem C13_hardsphere_energy : forall t eps mcv st ct sp cp g p1 p2 q1 q2,
+  hardsphere RNum t eps mcv st ct sp cp g p1 p2 = Some (q1, q2) ->
+  mcv = 0 -> hs_vn st ct sp cp g p1 p2 <= 0 -> 0 <= 1 + eps ->
+  ct * ct + st * st = 1 -> cp * cp + sp * sp = 1 ->
+  gvx g = 0 -> gvy g = 0 -> gvz g = 0 -> pm p1 + pm p2 <> 0 ->
+  ke q1 q2 = ke p1 p2 - pm p1 * pm p2 / (pm p1 + pm p2) * (1 - eps * eps) * (hs_vn st ct sp cp g p1 p2 * hs_vn st ct sp cp g p1 p2) / 2.
+Proof. exact hs_energy. Qed.
+Print Assumptions C13_hardsphere_energy.
+
+(* ================= round 3: the tree walks ================= *)
+From RV Require Import C13.TreeModel C13.TreeWalk C13.TreeC15.
+From RV Require C15.Tree.
+
+(* the loops around the walks: TREE hands over exactly what the walk of some root from (i, ghost box) reports (every arithmetic) *)
+Theorem C13_tree_enumerates : forall (T : Type) (N : Num T) kap gbf ngx ngy ngz mr1 ps roots e,
+  In e (search_tree N kap gbf ngx ngy ngz mr1 ps roots) <->
+  exists i a b c t,
+    (i < length ps)%nat /\ In a (ring (gcol ngx)) /\ In b (ring (gcol ngy)) /\ In c (ring (gcol ngz)) /\
+    In (Some t) roots /\
+    In e (tree_walk N kap ps i (gb_shift N (gbf a b c) (znth_p N ps i)) (gbid a b c) (pr (znth_p N ps i))
+                    (nadd N (pr (znth_p N ps i)) mr1) t).
+Proof. exact @tree_enumerates. Qed.
+
+(* SOUNDNESS of TREE w.r.t. DIRECT (any pruning constant, any max_radius1) *)
+Theorem C13_tree_sound : forall kap gbf ngx ngy ngz mr1 ps W roots e,
+  forest_ok ps W roots ->
+  In e (search_tree RNum kap gbf ngx ngy ngz mr1 ps roots) -> In e (search_direct RNum gbf ngx ngy ngz ps).
+Proof. exact tree_subset_direct. Qed.
+Print Assumptions C13_tree_sound.
+
+(* COMPLETENESS of TREE w.r.t. DIRECT for a pruning constant >= sqrt(3)/2: no strictly overlapping pair whose partner
+   radius is covered by max_radius1 is pruned *)
+Theorem C13_tree_complete : forall kap gbf ngx ngy ngz mr1 ps W roots a b c i j t,
+  sqrt 3 / 2 <= kap ->
+  forest_ok ps W roots -> In (Some t) roots -> In j (gleaves t) ->
+  In (Z.of_nat i, Z.of_nat j, gbid a b c) (search_direct RNum gbf ngx ngy ngz ps) ->
+  In a (ring (gcol ngx)) -> In b (ring (gcol ngy)) -> In c (ring (gcol ngz)) -> (i < length ps)%nat -> i <> j ->
+  direct_hit RNum gbf ps a b c i j = true ->
+  0 <= pr (znth_p RNum ps i) -> 0 <= mr1 -> pr (znth_p RNum ps j) <= mr1 ->
+  (let g := gb_shift RNum (gbf a b c) (znth_p RNum ps i) in let q := znth_p RNum ps j in
+   nrm (gx g - px q) (gy g - py q) (gz g - pz q) < pr (znth_p RNum ps i) + pr q) ->
+  In (Z.of_nat i, Z.of_nat j, gbid a b c) (search_tree RNum kap gbf ngx ngy ngz mr1 ps roots).
+Proof. exact direct_subset_tree_ideal. Qed.
+Print Assumptions C13_tree_complete.
+
+(* ... and what holds for the code's literal 0.86602540378443 < sqrt(3)/2: pairs overlapping by more than 1e-14 W *)
+Theorem C13_tree_complete_partial : forall gbf ngx ngy ngz mr1 ps W roots a b c i j t,
+  forest_ok ps W roots -> In (Some t) roots -> In j (gleaves t) ->
+  In (Z.of_nat i, Z.of_nat j, gbid a b c) (search_direct RNum gbf ngx ngy ngz ps) ->
+  In a (ring (gcol ngx)) -> In b (ring (gcol ngy)) -> In c (ring (gcol ngz)) -> (i < length ps)%nat -> i <> j ->
+  direct_hit RNum gbf ps a b c i j = true ->
+  0 <= pr (znth_p RNum ps i) -> 0 <= mr1 -> pr (znth_p RNum ps j) <= mr1 ->
+  (let g := gb_shift RNum (gbf a b c) (znth_p RNum ps i) in let q := znth_p RNum ps j in
+   nrm (gx g - px q) (gy g - py q) (gz g - pz q) < pr (znth_p RNum ps i) + pr q - W / 100000000000000) ->
+  In (Z.of_nat i, Z.of_nat j, gbid a b c) (search_tree RNum (kappa_lit RNum) gbf ngx ngy ngz mr1 ps roots).
+Proof. exact direct_subset_tree_code. Qed.
+Print Assumptions C13_tree_complete_partial.
+
+(* LINETREE: every reported pair passes the LINE test (both orientations are reported; LINE reports i<j) *)
+Theorem C13_linetree_sound : forall kap gbf ngx ngy ngz mr1 dt ps W roots e,
+  forest_ok ps W roots ->
+  In e (search_linetree RNum kap gbf ngx ngy ngz mr1 dt ps roots) ->
+  exists a b c i j, e = (Z.of_nat i, Z.of_nat j, gbid a b c) /\ i <> j /\ (i < length ps)%nat /\ (j < length ps)%nat /\
+    line_hit RNum gbf dt ps a b c i j = true /\
+    ((i < j)%nat -> In e (search_line RNum gbf ngx ngy ngz dt ps)).
+Proof. exact linetree_subset_line. Qed.
+Print Assumptions C13_linetree_sound.
+
+(* LINETREE completeness (ghost boxes without velocity): general constant with the shortfall term, and the code's literal *)
+Theorem C13_linetree_complete : forall kap gbf ngx ngy ngz mr1 dt ps W roots a b c i j t s,
+  forest_ok ps W roots -> In (Some t) roots -> In j (gleaves t) ->
+  (forall a b c, gvx (gbf a b c) = 0 /\ gvy (gbf a b c) = 0 /\ gvz (gbf a b c) = 0) ->
+  In a (ring (gcol ngx)) -> In b (ring (gcol ngy)) -> In c (ring (gcol ngz)) -> (i < length ps)%nat -> i <> j ->
+  line_hit RNum gbf dt ps a b c i j = true ->
+  0 <= pr (znth_p RNum ps i) -> 0 <= mr1 -> 0 <= kap -> pr (znth_p RNum ps j) <= mr1 ->
+  0 <= s <= 1 ->
+  (let g := gb_shift RNum (gbf a b c) (znth_p RNum ps i) in let q := znth_p RNum ps j in
+   forall w, 0 <= w <= W -> sqrt (dist2_at dt g q s) < pr (znth_p RNum ps i) + pr q - (sqrt 3 / 2 - kap) * w) ->
+  In (Z.of_nat i, Z.of_nat j, gbid a b c) (search_linetree RNum kap gbf ngx ngy ngz mr1 dt ps roots).
+Proof. exact line_subset_linetree. Qed.
+Print Assumptions C13_linetree_complete.
+Theorem C13_linetree_complete_partial : forall gbf ngx ngy ngz mr1 dt ps W roots a b c i j t s,
+  forest_ok ps W roots -> In (Some t) roots -> In j (gleaves t) ->
+  (forall a b c, gvx (gbf a b c) = 0 /\ gvy (gbf a b c) = 0 /\ gvz (gbf a b c) = 0) ->
+  In a (ring (gcol ngx)) -> In b (ring (gcol ngy)) -> In c (ring (gcol ngz)) -> (i < length ps)%nat -> i <> j ->
+  line_hit RNum gbf dt ps a b c i j = true ->
+  0 <= pr (znth_p RNum ps i) -> 0 <= mr1 -> pr (znth_p RNum ps j) <= mr1 -> 0 <= s <= 1 ->
+  (let g := gb_shift RNum (gbf a b c) (znth_p RNum ps i) in let q := znth_p RNum ps j in
+   sqrt (dist2_at dt g q s) < pr (znth_p RNum ps i) + pr q - W / 100000000000000) ->
+  In (Z.of_nat i, Z.of_nat j, gbid a b c) (search_linetree RNum (kappa_lit RNum) gbf ngx ngy ngz mr1 dt ps roots).
+Proof. exact line_subset_linetree_code. Qed.
+
+(* the well-formedness hypothesis is what C15's proved-sound dump checker wf_b establishes (integer geometry, unit un) *)
+Theorem C13_tree_wf_from_C15 : forall (u : Z) (pos : nat -> C15.Tree.P3) (un : R) (ps : list (particle R)),
+  0 < un ->
+  (forall p, let '(x, y, z) := pos p in
+     px (znth_p RNum ps p) = un * IZR x /\ py (znth_p RNum ps p) = un * IZR y /\ pz (znth_p RNum ps p) = un * IZR z) ->
+  forall l c d W, C15.Tree.wf_b u pos l c d = true -> un * IZR (2 * C15.Tree.hw u l) <= W -> (0 <= C15.Tree.hw u l)%Z ->
+  gleaves (of_dcell un d) = C15.Tree.leaves (C15.Tree.erase d) /\ gwf ps W (of_dcell un d).
+Proof. exact wf_b_gwf. Qed.
+Print Assumptions C13_tree_wf_from_C15.
+
+(* TREE == DIRECT as sets of UNORDERED pairs (open/periodic ghost boxes): a pair DIRECT reports is reported by TREE in at
+   least one orientation (the other one with the opposite ghost box) as soon as ONE of the two radii is <= max_radius1 —
+   which C13_max_radius_upper_bound guarantees for every pair; kap and the overlap margin as in C13_tree_complete *)
+Theorem C13_tree_unordered_complete : forall kap bx by_ bz ngx ngy ngz mr1 ps W roots a b c i j ti tj,
+  let gbf := gb_periodic RNum bx by_ bz in
+  (0 <= ngx)%Z -> (0 <= ngy)%Z -> (0 <= ngz)%Z ->
+  forest_ok ps W roots -> In (Some tj) roots -> In j (gleaves tj) -> In (Some ti) roots -> In i (gleaves ti) ->
+  In a (ring (gcol ngx)) -> In b (ring (gcol ngy)) -> In c (ring (gcol ngz)) ->
+  (i < length ps)%nat -> (j < length ps)%nat -> i <> j ->
+  direct_hit RNum gbf ps a b c i j = true ->
+  0 <= pr (znth_p RNum ps i) -> 0 <= pr (znth_p RNum ps j) -> 0 <= mr1 -> 0 <= kap ->
+  (pr (znth_p RNum ps i) <= mr1 \/ pr (znth_p RNum ps j) <= mr1) ->
+  (let g := gb_shift RNum (gbf a b c) (znth_p RNum ps i) in let q := znth_p RNum ps j in
+   forall w, 0 <= w <= W ->
+     nrm (gx g - px q) (gy g - py q) (gz g - pz q) < pr (znth_p RNum ps i) + pr q - (sqrt 3 / 2 - kap) * w) ->
+  In (Z.of_nat i, Z.of_nat j, gbid a b c) (search_tree RNum kap gbf ngx ngy ngz mr1 ps roots) \/
+  In (Z.of_nat j, Z.of_nat i, gbid (- a) (- b) (- c)) (search_tree RNum kap gbf ngx ngy ngz mr1 ps roots).
+Proof. exact direct_subset_tree_unordered. Qed.
+Print Assumptions C13_tree_unordered_complete.
